@@ -8,6 +8,8 @@ import time
 from .facts import VERIF, AnalysisBroken
 
 KNOWN = os.path.join(VERIF, "known_findings.txt")
+# JV_OUT redirects evidence/ and reports/ (used when the checks are run against scratch copies in parallel)
+OUT = os.environ.get("JV_OUT", VERIF)
 
 
 def load_known():
@@ -94,7 +96,7 @@ class Check(object):
     # ---- output ------------------------------------------------------------------
     def finish(self):
         wall = time.time() - self.t0
-        rdir = os.path.join(VERIF, "reports", self.prop)
+        rdir = os.path.join(OUT, "reports", self.prop)
         lines = []
         seen = set()
         for rec in self.known_hits:
@@ -144,8 +146,8 @@ class Check(object):
             "violations": len(self.violations),
         }
         ev["coverage"].update(self.extra)
-        os.makedirs(os.path.join(VERIF, "evidence"), exist_ok=True)
-        with open(os.path.join(VERIF, "evidence", self.prop + ".json"), "w") as fh:
+        os.makedirs(os.path.join(OUT, "evidence"), exist_ok=True)
+        with open(os.path.join(OUT, "evidence", self.prop + ".json"), "w") as fh:
             json.dump(ev, fh, indent=1)
         for r, d in sorted(self.rules.items()):
             lines.append("rule %-18s instances=%-4d obligations=%-5d discharged=%-5d" % (
